@@ -22,10 +22,10 @@
 //! signal arrives in the same instant as a SIGHUP-triggered run is started, is counted as `racy`
 //! and gets no rows.
 //!
-//! TODO(C19-success): histories containing *successful* runs need `Updater::run` to complete,
-//! which uses `block_in_place` (multi-thread runtime ⇒ no paused clock) and a fake Junos NETCONF
-//! server plus a fake IRRd; neither exists yet.  `run_case_realtime` is the hook: real time,
-//! periods of 1–2 s, tolerance 300 ms, thorough tier only.  Until then every scripted run fails.
+//! Histories containing *successful* runs need `Updater::run` to complete, which uses
+//! `block_in_place` (multi-thread runtime ⇒ no paused clock): they run in REAL time against the
+//! in-memory fake Junos and the fake IRRd (`run_case_realtime`), with observed times rounded to a
+//! 250 ms grid; three short ones in the quick tier, a failure→success one (66 s) in the thorough tier.
 use std::{
     num::NonZeroU64,
     sync::{
@@ -241,12 +241,117 @@ pub fn run_case(c: &Case) -> Obs {
     r.unwrap_or_else(|_| Obs { panicked: true, ..Default::default() })
 }
 
-/// TODO(C19-success): real-time run of a script that contains successful runs (multi-thread
-/// runtime, fake Junos server + fake IRRd, periods 1–2 s, tolerance 300 ms). Not implemented:
-/// the fakes do not exist yet. Returns `None` so callers skip the case.
-#[allow(dead_code)]
-pub fn run_case_realtime(_c: &Case) -> Option<Obs> {
-    None
+/// Real-time run of a script that contains SUCCESSFUL runs: `Updater::run` needs the multi-thread
+/// runtime (`block_in_place`), so tokio's paused clock is not available. The target is the in-memory
+/// fake Junos (a successful run takes a few ms) plus the fake IRRd; a scripted *failing* run fails at
+/// connect. Observed times are rounded to `RT_GRID` ms (scripts only use multiples of 500 ms; with at
+/// most a handful of runs the accumulated run time stays far below half the grid).
+pub const RT_GRID: u64 = 250;
+
+pub fn run_case_realtime(c: &Case) -> Option<Obs> {
+    use crate::{fakeirrd::FakeIrrd, fakejunos, memtransport as mt};
+    let rt = tokio::runtime::Builder::new_multi_thread().worker_threads(4).enable_all().build().unwrap();
+    let irrd = FakeIrrd::start(std::collections::HashMap::new());
+    let irrd_port = irrd.port;
+    let c = c.clone();
+    let round = |t: u64| ((t + RT_GRID / 2) / RT_GRID) * RT_GRID;
+    let o = rt.block_on(async move {
+        let t0 = std::time::Instant::now();
+        let log: Arc<Mutex<(Vec<u64>, Vec<u64>)>> = Default::default();
+        let n = Arc::new(AtomicUsize::new(0));
+        let outcomes: Arc<Vec<bool>> = Arc::new(c.runs.iter().map(|r| r.1).collect());
+        let (log2, n2) = (log.clone(), n.clone());
+        let conn = agent::verif::connector::<MemTransport, _>(move || {
+            let (log, n, outcomes) = (log2.clone(), n2.clone(), outcomes.clone());
+            Box::pin(async move {
+                let i = n.fetch_add(1, Ordering::SeqCst);
+                log.lock().unwrap().0.push(t0.elapsed().as_millis() as u64);
+                if outcomes.get(i).copied().unwrap_or(false) {
+                    let (t, peer) = mt::new();
+                    let script = fakejunos::Script { running: fakejunos::running_with(1), ephemeral: fakejunos::empty_config(), fault: None };
+                    tokio::spawn(fakejunos::serve(peer, script, Default::default()));
+                    Ok(t)
+                } else {
+                    Err(anyhow::anyhow!("scripted connect failure #{i}"))
+                }
+            })
+        });
+        let period = NonZeroU64::new(c.period_s).unwrap();
+        let h = tokio::spawn(async move {
+            let r = agent::verif::run_loop(conn, "127.0.0.1", irrd_port, "verif", period).await;
+            (r.is_ok(), t0.elapsed().as_millis() as u64)
+        });
+        // wait for the first attempt: the signal listeners are registered before it
+        for _ in 0..2000 {
+            if n.load(Ordering::SeqCst) > 0 || h.is_finished() {
+                break;
+            }
+            tokio::time::sleep(Duration::from_millis(1)).await;
+        }
+        for (t, k) in &c.sigs {
+            if *t > c.horizon {
+                break;
+            }
+            let now = t0.elapsed().as_millis() as u64;
+            if *t > now {
+                tokio::time::sleep(Duration::from_millis(*t - now)).await;
+            }
+            if h.is_finished() {
+                break;
+            }
+            unsafe { libc::raise(signo(*k)) };
+        }
+        let now = t0.elapsed().as_millis() as u64;
+        if c.horizon > now {
+            tokio::time::sleep(Duration::from_millis(c.horizon - now)).await;
+        }
+        let mut o = Obs::default();
+        if h.is_finished() {
+            match h.await {
+                Ok((ok, t)) => {
+                    o.exit = Some(t);
+                    o.exit_err = !ok;
+                }
+                Err(_) => o.panicked = true,
+            }
+        } else {
+            h.abort();
+            let _ = h.await;
+        }
+        let g = log.lock().unwrap();
+        o.starts = g.0.iter().copied().filter(|t| *t <= c.horizon).collect();
+        o.ends = o.starts.clone();
+        o
+    });
+    drop(irrd);
+    let mut o = o;
+    o.starts = o.starts.iter().map(|t| round(*t)).collect();
+    o.ends = o.starts.clone();
+    o.exit = o.exit.map(round);
+    Some(o)
+}
+
+/// real-time scripts (all times multiples of 500 ms; run durations are ~0 on the grid)
+fn realtime_cases(thorough: bool) -> Vec<Case> {
+    let mk = |p: u64, runs: &[bool], sigs: &[(u64, char)], h: u64| Case {
+        period_s: p,
+        runs: runs.iter().map(|ok| (0, *ok)).collect(),
+        sigs: sigs.to_vec(),
+        horizon: h,
+    };
+    let mut v = vec![
+        // success restores the normal period: runs at 0, p, 2p, …
+        mk(1, &[true, true, true, true], &[], 3500),
+        // SIGHUP while waiting after a success: immediate run, then the period again
+        mk(2, &[true, true, true], &[(1000, 'H')], 3500),
+        // SIGTERM while waiting after a success: clean exit, no further run
+        mk(1, &[true, true], &[(1500, 'T')], 2500),
+    ];
+    if thorough {
+        // failure, then success: first retry after 60 s, then the period; and the back-off starts over
+        v.push(mk(2, &[false, true, true, false], &[], 66_500));
+    }
+    v
 }
 
 /// Is the script free of the ties that the real `select!` resolves at random?
@@ -431,6 +536,7 @@ pub fn main(opts: &Opts) {
         }
     } else {
         cases = gen_cases(opts, &mut rng, &mut sink);
+        cases.extend(realtime_cases(opts.thorough()));
         let mut seen = std::collections::HashSet::new();
         cases.retain(|c| seen.insert(c.descr()));
     }
@@ -447,17 +553,17 @@ pub fn main(opts: &Opts) {
 
     for c in &cases {
         let d = c.descr();
-        if c.runs.iter().any(|r| r.1) {
-            // TODO(C19-success)
+        let o = if c.runs.iter().any(|r| r.1) {
             match run_case_realtime(c) {
-                Some(_) => unreachable!(),
-                None => {
-                    sink.count("skipped.success-history");
-                    continue;
+                Some(o) => {
+                    sink.count("realtime.success-history");
+                    o
                 }
+                None => continue,
             }
-        }
-        let o = run_case(c);
+        } else {
+            run_case(c)
+        };
         if o.panicked {
             sink.direct(&d, "violation loop-panicked".into());
             continue;
